@@ -134,6 +134,9 @@ func init() {
 	byteT := types.Typ[types.Uint8]
 	byteSlice := types.NewSlice(byteT)
 	externModels["bytes.NewBuffer"] = func(ex *Exec, fr *Frame, instr ssa.CallInstruction, c *ssa.CallCommon, args []Term, pc Term, st State) (State, Term, bool) {
+		if ex.fc == nil || !ex.fc.Models["bytes.Buffer"] {
+			return st, Term{}, false // opt-in: `model bytes.Buffer` in the function's contract
+		}
 		ex.modelUsed("bytes.NewBuffer(b): a new Buffer whose contents are b and whose read offset is 0")
 		t, bi, _ := bufferType(c.StaticCallee())
 		ex.nLoc++
@@ -143,18 +146,27 @@ func init() {
 		return st, r, true
 	}
 	externModels["(*bytes.Buffer).Bytes"] = func(ex *Exec, fr *Frame, instr ssa.CallInstruction, c *ssa.CallCommon, args []Term, pc Term, st State) (State, Term, bool) {
+		if ex.fc == nil || !ex.fc.Models["bytes.Buffer"] {
+			return st, Term{}, false // opt-in: `model bytes.Buffer` in the function's contract
+		}
 		ex.modelUsed("(*bytes.Buffer).Bytes/Len with read offset 0: the internal slice and its length")
 		t, bi, oi := bufferType(c.StaticCallee())
 		ex.bufferOffZero(fr, instr, pc, st, args[0], t, oi)
 		return st, ex.load(st, pc, ex.fieldAddr(args[0], t, bi), byteSlice), true
 	}
 	externModels["(*bytes.Buffer).Len"] = func(ex *Exec, fr *Frame, instr ssa.CallInstruction, c *ssa.CallCommon, args []Term, pc Term, st State) (State, Term, bool) {
+		if ex.fc == nil || !ex.fc.Models["bytes.Buffer"] {
+			return st, Term{}, false // opt-in: `model bytes.Buffer` in the function's contract
+		}
 		ex.modelUsed("(*bytes.Buffer).Bytes/Len with read offset 0: the internal slice and its length")
 		t, bi, oi := bufferType(c.StaticCallee())
 		ex.bufferOffZero(fr, instr, pc, st, args[0], t, oi)
 		return st, sLen(ex.load(st, pc, ex.fieldAddr(args[0], t, bi), byteSlice)), true
 	}
 	externModels["(*bytes.Buffer).Write"] = func(ex *Exec, fr *Frame, instr ssa.CallInstruction, c *ssa.CallCommon, args []Term, pc Term, st State) (State, Term, bool) {
+		if ex.fc == nil || !ex.fc.Models["bytes.Buffer"] {
+			return st, Term{}, false // opt-in: `model bytes.Buffer` in the function's contract
+		}
 		ex.modelUsed("(*bytes.Buffer).Write(p) with read offset 0: buf = append(buf, p...), returns (len(p), nil)")
 		t, bi, oi := bufferType(c.StaticCallee())
 		ex.bufferOffZero(fr, instr, pc, st, args[0], t, oi)
@@ -165,6 +177,9 @@ func init() {
 		return nst, Term{Tuple: []Term{sLen(args[1]), ex.te.zero(c.Signature().Results().At(1).Type())}}, true
 	}
 	externModels["(*bytes.Buffer).ReadFrom"] = func(ex *Exec, fr *Frame, instr ssa.CallInstruction, c *ssa.CallCommon, args []Term, pc Term, st State) (State, Term, bool) {
+		if ex.fc == nil || !ex.fc.Models["bytes.Buffer"] {
+			return st, Term{}, false // opt-in: `model bytes.Buffer` in the function's contract
+		}
 		ex.modelUsed("(*bytes.Buffer).ReadFrom(r) with read offset 0: appends the m >= 0 bytes r produced (contents unknown) keeping the earlier bytes, possibly into a fresh allocation; returns (m, err); r.Read writes only into the slice it is given")
 		t, bi, oi := bufferType(c.StaticCallee())
 		ex.bufferOffZero(fr, instr, pc, st, args[0], t, oi)
